@@ -211,6 +211,7 @@ fn run_item<T: Comp + Serialize + DeserializeOwned>(x: &T, r: &mut Rng, out: &mu
     for _ in 0..3 {
         let keep = n - r.below(n_abs_trailing as u64 + 1) as usize;
         let mut elems = Vec::new();
+        let mut revariant = false;
         for i in 0..keep {
             let a = absent(kinds[i], &fields[i], &dflts[i]);
             let e = if a {
@@ -218,6 +219,24 @@ fn run_item<T: Comp + Serialize + DeserializeOwned>(x: &T, r: &mut Rng, out: &mu
                     (b'D', 0) => fields[i].clone(),            // the default written out
                     (b'U', 0) => vec![0xe0, 0x01, 0x00],       // an empty array for an absent `multiple` field
                     _ => vec![0x40],
+                }
+            } else if r.chance(1, 2) {
+                // another spec-valid encoding of the same field value (other widths, list8/32, 0x56 booleans, descriptors by
+                // name ...): the typed decoder of the field must take it for the same value
+                match serde_amqp::from_slice::<Value>(&fields[i]) {
+                    Ok(v) => {
+                        let mut alt = Vec::new();
+                        match crate::c05::encode_variant(&v, r, &mut alt) {
+                            Some(()) => {
+                                if alt != fields[i] {
+                                    revariant = true;
+                                }
+                                alt
+                            }
+                            None => fields[i].clone(),
+                        }
+                    }
+                    Err(_) => fields[i].clone(),
                 }
             } else {
                 fields[i].clone()
@@ -231,6 +250,9 @@ fn run_item<T: Comp + Serialize + DeserializeOwned>(x: &T, r: &mut Rng, out: &mu
         let line = format!("{} var {}", head, hex(&bytes));
         out.case(&line, &format!("dec={} enum={}", dec, via));
         out.count("layout: spec-valid variant");
+        if revariant {
+            out.count("layout: spec-valid variant with re-encoded fields");
+        }
         if normal && dec != expect {
             out.violation("c05-comp-variant", &format!("a spec-valid layout decodes to {} instead of {}", dec, expect), &line);
         }
